@@ -11,6 +11,18 @@ def K(crate, filters, tier="quick", timeout_s=600, cbmc_args=None, features=None
                 cbmc_args=cbmc_args or [], features=features, functions=functions or [], bounds=bounds,
                 stubs=stubs or [], jobs=jobs, gen=gen, extra_kani=extra_kani or [])
 
+def M(lemmas, select, tier="quick", timeout_s=1800, bounds=""):
+    return dict(engine="mirsym", lemmas=lemmas, select=select, tier=tier, timeout_s=timeout_s, bounds=bounds, filters=["mirsym:" + "+".join(lemmas)])
+
+MIRSYM_ASSUME = [
+    "engine B executes the MIR text of /repo's current tree (cargo +nightly rustc -Zunpretty=mir, overflow checks on), 64-bit usize",
+    "trusted summaries: HashMap<(usize,usize),Box<[u8]>> as a finite map; Seek::seek(Start(p)/End(0)) = Err or Ok with position set; Read::read_exact = Err (buffer unspecified) or Ok only if pos+len <= file_len with buf == file[pos..pos+len] "
+    "(std's contract; short reads and Interrupted retries happen inside read_exact); vec![0;n].into_boxed_slice() = one allocation of n bytes; Try/FromResidual/ok_or/expect/checked_add/checked_mul/try_into by definition",
+    "leaf parsers parse_ident, FileHeader::parse_tail, SectionHeader::parse_at, CompressionHeader::parse_at are uninterpreted functions of the file position they read (same function on both sides) with the Ok-iff-bytes-present contract that engine A decides in C02/C10",
+    "cache representation invariant Inv assumed for the pre-state: every cached key (s,e) holds file[s..e] with s <= e <= stream_len == file_len; shown preserved by every encoded operation (inductive step); the step to whole call histories is a pen-and-paper induction",
+    "cleanup (unwind) blocks are not executed",
+]
+
 COMMON_ASSUME = [
     "usize is 64 bits (Kani models the x86_64 host target; no 32-bit target installed)",
     "Kani/CBMC 6.11 translation of MIR and CaDiCaL's verdict are trusted",
@@ -186,4 +198,47 @@ PROPS["C16"] = dict(
         K("core", ["c16t::"], tier="thorough", functions=["version iterators"], bounds="areas 32..40 bytes", timeout_s=3000),
     ],
     assumptions=[],
+)
+
+PROPS["C07"] = dict(
+    title="Stream parser == slice parser",
+    engine="mirsym",
+    technique="symbolic execution of the MIR of elf_stream.rs/elf_bytes.rs by an own executor, path-pair product with z3 (QF_ABV/UF) deciding every obligation; inductive cache invariant",
+    level_text="All loop-free bodies of the stream parser (CachingReader::{new,load_bytes,get_bytes,read_bytes,clear_cache}, section_data, section_data_as_{strtab,rels,relas,notes}, segment_data_as_notes, open_stream, "
+               "parse_section_headers, parse_program_headers) and their ElfBytes twins are executed path-completely on fully symbolic 64-bit arguments and header fields from an arbitrary cache state satisfying the invariant; "
+               "z3 decides for every jointly satisfiable (stream path, slice path) pair that Ok-ness coincides (slice Ok => stream Ok everywhere, and the converse for section_data, segment notes and open) and that both sides designate the same file bytes / "
+               "same constructor arguments; L1 shows the cache invariant is preserved by every operation, so the equivalence extends to any sequence of calls by induction. No size bound on this side: offsets, sizes and counts are unconstrained 64-bit values.",
+    level_note="Scope: sections not flagged SHF_COMPRESSED (property's own scoping). Not encoded (loops over the section table): section_header_by_name, symbol_table/dynamic_symbol_table/dynamic beyond their straight-line tail, symbol_version_table — outside this claim. "
+               "Trusted: the summaries listed in assumptions; the executor itself (validated by seeded mutants and by replaying counterexamples natively).",
+    groups=[
+        M(["L1", "L2", "L3"], ["L1.", "C07.", "L2.", "L3."], bounds="all u64 ranges / header fields; cache pre-state arbitrary under Inv; all straight-line accessors x both classes; open_stream vs minimal_parse with all header fields symbolic"),
+    ],
+    assumptions=MIRSYM_ASSUME,
+)
+PROPS["C08"] = dict(
+    title="Stream memory and I/O bounded by the stream",
+    engine="mirsym",
+    technique="symbolic execution of the MIR of elf_stream.rs by an own executor; z3 decides allocation-size, read-range and panic-edge obligations on every path",
+    level_text="On every path of load_bytes/read_bytes/get_bytes/new and of every encoded accessor and open_stream (arbitrary 64-bit header claims, arbitrary fault schedule): each allocation event has size <= stream_len (z3: path condition && size > stream_len is unsat), "
+               "each read_exact covers exactly the designated range after an absolute seek to its start, open performs at most the ident/tail/shdr[0]/two-table reads and clears its cache, and no panic edge (expect, index, overflow assert, unwrap) is reachable under the cache invariant.",
+    level_note="Outside: allocations inside std's HashMap/Vec growth (summarised), the Vec<SectionHeader>/Vec<ProgramHeader> built by collect() (at most bytes_read/entsize entries, argued in DESIGN), looped accessors. 64-bit usize.",
+    groups=[
+        M(["L1", "L2"], ["C08."], bounds="all u64 ranges / header fields; all straight-line accessors x both classes"),
+        M(["L3"], ["C08."], tier="thorough", bounds="open_stream with all header fields symbolic"),
+    ],
+    assumptions=MIRSYM_ASSUME,
+)
+PROPS["C17"] = dict(
+    title="Stream I/O failures surface as errors, no residue",
+    engine="mirsym",
+    technique="symbolic execution of the MIR of elf_stream.rs with nondeterministic Err results for every seek/read_exact (all fault schedules of a call at once); z3 decides the obligations per path",
+    level_text="Every I/O call in the encoded bodies may fail independently (one fork per call, so all single- and multi-fault schedules of a call are covered). Decided: a path through any failed I/O returns Err (IOError at the reader level) and performs no cache insert; "
+               "the only insert is dominated by a successful absolute seek and a successful read_exact of the very buffer inserted (so the entry equals the file bytes of its key); Ok paths preserve the cache invariant. Hence after a failed call the state is one a fault-free history could have produced, "
+               "and later answers are those of a fault-free stream (C07).",
+    level_note="Premature EOF and short reads are the Err arm of read_exact's contract summary. Outside: looped accessors, panics inside std. 64-bit usize.",
+    groups=[
+        M(["L1", "L2"], ["C17."], bounds="all fault schedules per call; all u64 ranges; all straight-line accessors x both classes"),
+        M(["L3"], ["C17."], tier="thorough", bounds="open_stream under all fault schedules"),
+    ],
+    assumptions=MIRSYM_ASSUME,
 )
